@@ -1130,7 +1130,16 @@ func vfE7Counter(r *vfRand) int64 {
 
 // vfE7GenPct: a percentiles shape: different lengths on different nodes, repeated and missing "quantile" members and,
 // rarely (VERIF_E7_NULLPCT per mille, default 15), a null element.
-var vfE7NullPctPerMille = vfEnvInt("VERIF_E7_NULLPCT", 15)
+// (On a tree without fixes/F53 every such case kills the process and costs a restart: the rate is scaled so that a run
+// meets about the same number of them in both tiers.)
+var vfE7NullPctPerMille = vfEnvInt("VERIF_E7_NULLPCT", vfE7Max(1, 15*300/vfE7Max(300, vfEnvInt("VERIF_N", 300))))
+
+func vfE7Max(a, b int) int {
+	if a > b {
+		return a
+	}
+	return b
+}
 
 func vfE7GenPct(r *vfRand) []int {
 	var pct []int
@@ -1474,6 +1483,9 @@ func TestVerifE7Malformed(t *testing.T) {
 					w.Lookupds[0].Lookup = append([]vfE7Producer{p}, w.Lookupds[0].Lookup...)
 				} else if w.NsqdAddrs[0] != "N0" {
 					w.NsqdAddrs = append([]string{"N0"}, w.NsqdAddrs...)
+				}
+				if round >= 2 && (kind == 12 || kind == 13 || kind == 14 || kind == 17) {
+					continue // null percentiles: fixed worlds, two rounds say it all (each is a process death without fixes/F53)
 				}
 				reqs := []vfE7VReq{{kind: "topic", a: "t1"}, {kind: "channel", a: "t1", b: "c1"}, {kind: "nodes"}, {kind: "node", a: "N0"},
 					{kind: "counter"}, {kind: "topics"}}
